@@ -75,6 +75,7 @@ type mtr struct {
 	env     map[types.Object]interface{} // pure locals -> expr
 	regs    map[types.Object]int         // rmw locals -> register
 	nregs   int
+	multi   map[types.Object]bool // locals of the package assigned other than by their definition, or whose address is taken (lazily)
 }
 
 // findMetricsVars: the metrics state of a package, by role: package-level variables declared in the package, of
@@ -312,8 +313,66 @@ func recordCallers(prog *ssa.Program, pkgs []*packages.Package, out *Out) {
 			}
 		}
 	}
-	var isLength func(v ssa.Value, depth int, seen map[ssa.Value]bool) (bool, string)
-	isLength = func(v ssa.Value, depth int, seen map[ssa.Value]bool) (bool, string) {
+	// frame: the value being followed lies in the body of fn, entered through the results of one call: the parameters
+	// of fn stand for the arguments of THAT call (evaluated in the caller: its seen set and its own frame)
+	type frame struct {
+		fn     *ssa.Function
+		args   []ssa.Value
+		seen   map[ssa.Value]bool
+		parent *frame
+	}
+	var isLengthIn func(v ssa.Value, depth int, seen map[ssa.Value]bool, fr *frame) (bool, string)
+	// resultIsLength: result number idx of the call is a length: the call is the builtin len, or a static call of a
+	// function of the module (with a body, without a recover block that could replace the results) every Return of which
+	// returns a length in that position.  A callee already being followed (recursion) is not resolved.
+	resultIsLength := func(x *ssa.Call, idx int, depth int, seen map[ssa.Value]bool, fr *frame) (bool, string) {
+		if bi, ok := x.Common().Value.(*ssa.Builtin); ok && bi.Name() == "len" && idx == 0 {
+			return true, "len(..)"
+		}
+		name := "result of " + x.Common().Value.Name()
+		sc := x.Common().StaticCallee()
+		if sc == nil || sc.Pkg == nil || sc.Pkg.Pkg == nil || len(sc.Blocks) == 0 || sc.Recover != nil {
+			return false, name
+		}
+		if pp := sc.Pkg.Pkg.Path(); pp != mod && !strings.HasPrefix(pp, mod+"/") {
+			return false, name
+		}
+		for f := fr; f != nil; f = f.parent {
+			if f.fn == sc {
+				return false, name + " (recursive)"
+			}
+		}
+		inner := &frame{fn: sc, args: x.Common().Args, seen: seen, parent: fr}
+		innerSeen := map[ssa.Value]bool{}
+		why, n := "", 0
+		for _, b := range sc.Blocks {
+			for _, ins := range b.Instrs {
+				ret, ok := ins.(*ssa.Return)
+				if !ok {
+					continue
+				}
+				if idx >= len(ret.Results) {
+					return false, name
+				}
+				ok, w := isLengthIn(ret.Results[idx], depth+1, innerSeen, inner)
+				if !ok {
+					return false, w + " returned by " + sc.Name()
+				}
+				if w != "" {
+					why = w
+				}
+				n++
+			}
+		}
+		if n == 0 {
+			return false, name
+		}
+		return true, why + " returned by " + sc.Name()
+	}
+	isLengthIn = func(v ssa.Value, depth int, seen map[ssa.Value]bool, fr *frame) (bool, string) {
+		isLength := func(v ssa.Value, depth int, seen map[ssa.Value]bool) (bool, string) {
+			return isLengthIn(v, depth, seen, fr)
+		}
 		if v == nil || depth > 8 {
 			return false, "?"
 		}
@@ -328,10 +387,11 @@ func recordCallers(prog *ssa.Program, pkgs []*packages.Package, out *Out) {
 			}
 			return false, "constant " + x.String()
 		case *ssa.Call:
-			if bi, ok := x.Common().Value.(*ssa.Builtin); ok && bi.Name() == "len" {
-				return true, "len(..)"
+			return resultIsLength(x, 0, depth, seen, fr)
+		case *ssa.Extract:
+			if c, ok := x.Tuple.(*ssa.Call); ok {
+				return resultIsLength(c, x.Index, depth, seen, fr)
 			}
-			return false, "result of " + x.Common().Value.Name()
 		case *ssa.Convert:
 			if b, ok := x.Type().Underlying().(*types.Basic); ok && b.Info()&types.IsInteger != 0 {
 				return isLength(x.X, depth+1, seen)
@@ -380,6 +440,14 @@ func recordCallers(prog *ssa.Program, pkgs []*packages.Package, out *Out) {
 					idx = i
 				}
 			}
+			if idx >= 0 && fr != nil && fr.fn == f {
+				// the body of f is being followed for the results of one call: the parameter is that call's argument
+				if idx >= len(fr.args) {
+					return false, "parameter " + x.Name() + " of " + f.Name()
+				}
+				delete(seen, v) // decided per call, not once for the function
+				return isLengthIn(fr.args[idx], depth+1, fr.seen, fr.parent)
+			}
 			if idx < 0 || token.IsExported(f.Name()) || asValue[f] || len(sites[f]) == 0 {
 				return false, "parameter " + x.Name() + " of " + f.Name()
 			}
@@ -419,7 +487,7 @@ func recordCallers(prog *ssa.Program, pkgs []*packages.Package, out *Out) {
 				if strings.HasSuffix(pos.Filename, "_test.go") {
 					continue
 				}
-				okLen, why := isLength(ci.Common().Args[1], 0, map[ssa.Value]bool{})
+				okLen, why := isLengthIn(ci.Common().Args[1], 0, map[ssa.Value]bool{}, nil)
 				out.MetricsCallers = append(out.MetricsCallers, J{"pos": fmt.Sprintf("%s:%d", shortFile(pos.Filename), pos.Line),
 					"size_arg": why, "nonneg": okLen, "func": fnName(rootFn(f))})
 			}
@@ -434,7 +502,10 @@ func recordCallers(prog *ssa.Program, pkgs []*packages.Package, out *Out) {
 // functions (GetStats / GetMetrics) and the same-package functions they call: WHEREVER a value read from g.F
 // (atomic load, plain read, through a local, a conversion or a one-argument helper) is published in a field K of the
 // snapshot type — a key of a composite literal `Stats{K: v}`, an assignment `stats.K = v`, or a
-// `range g.F { snapshot.K[...] = ... }`.
+// `range g.F { snapshot.K[...] = ... }`.  The value is also followed through a FIELD OF AN INTERMEDIATE STRUCT of the package
+// (`counters{min: load(&g.F)}` in one function, `Stats{K: c.min}` in another): field-sensitive, per struct type; a field
+// that receives anything else than the value of one metrics field anywhere in the scanned functions carries nothing.
+// Parameters / receivers of the scanned callees that are given the metrics variable stand for it.
 func publicNames(p *packages.Package, vars []types.Object, funcs map[types.Object]*ast.FuncDecl) map[string]string {
 	res := map[string]string{}
 	t := newMtr(p, vars, funcs)
@@ -457,6 +528,64 @@ func publicNames(p *packages.Package, vars []types.Object, funcs map[types.Objec
 				}
 			}
 			isSnap := func(ty types.Type) bool { return snap == nil || (ty != nil && types.Identical(deref(ty), snap)) }
+			// a parameter / receiver of a scanned callee that is given the metrics variable (g, &g, or such a parameter) at
+			// every scanned call stands for it
+			aliasBad := map[types.Object]bool{}
+			bindG := func(call *ast.CallExpr, c *ast.FuncDecl) {
+				bind := func(po types.Object, arg ast.Expr) {
+					if po == nil || aliasBad[po] {
+						return
+					}
+					arg = ast.Unparen(arg)
+					if u, ok := arg.(*ast.UnaryExpr); ok && u.Op == token.AND {
+						arg = ast.Unparen(u.X)
+					}
+					var g types.Object
+					if id, ok := arg.(*ast.Ident); ok {
+						obj := p.TypesInfo.Uses[id]
+						if _, isg := t.isG(obj); isg {
+							g = obj
+							if a, ok := t.alias[obj]; ok {
+								g = a
+							}
+						}
+					}
+					if old, has := t.alias[po]; g == nil || (has && old != g) {
+						if has {
+							delete(t.alias, po)
+							aliasBad[po] = true
+						}
+						if _, isStruct := deref(po.Type()).Underlying().(*types.Struct); isStruct {
+							aliasBad[po] = true // given something else somewhere
+						}
+						return
+					}
+					t.alias[po] = g
+				}
+				if c.Recv != nil && len(c.Recv.List) == 1 && len(c.Recv.List[0].Names) == 1 {
+					if sel, ok := ast.Unparen(call.Fun).(*ast.SelectorExpr); ok {
+						bind(p.TypesInfo.Defs[c.Recv.List[0].Names[0]], sel.X)
+					}
+				}
+				var pobjs []types.Object
+				for _, fl := range c.Type.Params.List {
+					if _, variadic := fl.Type.(*ast.Ellipsis); variadic {
+						return
+					}
+					if len(fl.Names) == 0 {
+						pobjs = append(pobjs, nil)
+					}
+					for _, n := range fl.Names {
+						pobjs = append(pobjs, p.TypesInfo.Defs[n])
+					}
+				}
+				if len(pobjs) != len(call.Args) {
+					return
+				}
+				for i, po := range pobjs {
+					bind(po, call.Args[i])
+				}
+			}
 			// the function and what it calls in the package (two levels)
 			scan := []*ast.FuncDecl{fd}
 			seen := map[*ast.FuncDecl]bool{fd: true}
@@ -465,9 +594,12 @@ func publicNames(p *packages.Package, vars []types.Object, funcs map[types.Objec
 				for _, g := range scan[from:to] {
 					ast.Inspect(g.Body, func(n ast.Node) bool {
 						if call, ok := n.(*ast.CallExpr); ok {
-							if c := t.calleeOf(call); c != nil && c.Body != nil && !seen[c] {
-								seen[c] = true
-								scan = append(scan, c)
+							if c := t.calleeOf(call); c != nil && c.Body != nil {
+								bindG(call, c)
+								if !seen[c] {
+									seen[c] = true
+									scan = append(scan, c)
+								}
 							}
 						}
 						return true
@@ -475,10 +607,48 @@ func publicNames(p *packages.Package, vars []types.Object, funcs map[types.Objec
 				}
 				from = to
 			}
+			// fields of intermediate structs: named struct types of the package other than the snapshot and the metrics structs
+			isInter := func(ty types.Type) bool {
+				if ty == nil {
+					return false
+				}
+				nt, ok := deref(ty).(*types.Named)
+				if !ok || nt.Obj().Pkg() != p.Types || (snap != nil && types.Identical(nt, snap)) {
+					return false
+				}
+				if _, isStruct := nt.Underlying().(*types.Struct); !isStruct {
+					return false
+				}
+				for _, v := range vars {
+					if types.Identical(deref(v.Type()), nt) {
+						return false
+					}
+				}
+				return true
+			}
+			inter := map[types.Object]string{} // result of the previous collection pass
+			var newInter map[types.Object]string
+			var newBad map[types.Object]bool
+			setInter := func(fv types.Object, f string, ok bool) {
+				if fv == nil || newInter == nil {
+					return
+				}
+				if old, has := newInter[fv]; !ok || (has && old != f) {
+					newBad[fv] = true
+					return
+				}
+				newInter[fv] = f
+			}
 			local := map[types.Object]string{}
 			var fieldOfValue func(e ast.Expr) (string, bool)
 			fieldOfValue = func(e ast.Expr) (string, bool) {
 				e = ast.Unparen(e)
+				if sel, ok := e.(*ast.SelectorExpr); ok {
+					if sn := p.TypesInfo.Selections[sel]; sn != nil && sn.Kind() == types.FieldVal && isInter(sn.Recv()) {
+						f, ok := inter[sn.Obj()]
+						return f, ok
+					}
+				}
 				if id, ok := e.(*ast.Ident); ok {
 					f, ok := local[p.TypesInfo.Uses[id]]
 					return f, ok
@@ -501,72 +671,115 @@ func publicNames(p *packages.Package, vars []types.Object, funcs map[types.Objec
 				}
 				return "", false
 			}
-			for _, g := range scan {
-				ast.Inspect(g.Body, func(n ast.Node) bool {
-					switch x := n.(type) {
-					case *ast.ValueSpec:
-						for i, id := range x.Names {
-							if i < len(x.Values) {
-								if f, ok := fieldOfValue(x.Values[i]); ok {
-									local[p.TypesInfo.Defs[id]] = f
-								}
-							}
-						}
-					case *ast.AssignStmt:
-						if len(x.Lhs) != len(x.Rhs) {
-							return true
-						}
-						for i := range x.Lhs {
-							f, ok := fieldOfValue(x.Rhs[i])
-							if !ok {
-								continue
-							}
-							switch l := ast.Unparen(x.Lhs[i]).(type) {
-							case *ast.Ident:
-								obj := p.TypesInfo.Defs[l]
-								if obj == nil {
-									obj = p.TypesInfo.Uses[l]
-								}
-								if obj != nil {
-									local[obj] = f
-								}
-							case *ast.SelectorExpr:
-								// stats.K = v
-								if tv, ok := p.TypesInfo.Types[l.X]; ok && isSnap(tv.Type) && x.Tok == token.ASSIGN {
-									publish(f, l.Sel.Name)
-								}
-							}
-						}
-					case *ast.CompositeLit:
-						if tv, ok := p.TypesInfo.Types[x]; ok && !isSnap(tv.Type) {
-							return true
-						}
-						for _, el := range x.Elts {
-							if kv, ok := el.(*ast.KeyValueExpr); ok {
-								if k, ok := kv.Key.(*ast.Ident); ok {
-									if f, ok := fieldOfValue(kv.Value); ok {
-										publish(f, k.Name)
+			const collectPasses = 4
+			for pass := 0; pass <= collectPasses; pass++ {
+				final := pass == collectPasses
+				local = map[types.Object]string{}
+				newInter, newBad = map[types.Object]string{}, map[types.Object]bool{}
+				if final {
+					newInter, newBad = nil, nil
+				}
+				publish := func(f, k string) {
+					if final {
+						publish(f, k)
+					}
+				}
+				for _, g := range scan {
+					ast.Inspect(g.Body, func(n ast.Node) bool {
+						switch x := n.(type) {
+						case *ast.ValueSpec:
+							for i, id := range x.Names {
+								if i < len(x.Values) {
+									if f, ok := fieldOfValue(x.Values[i]); ok {
+										local[p.TypesInfo.Defs[id]] = f
 									}
 								}
 							}
-						}
-					case *ast.RangeStmt:
-						if f, ok := t.fieldOf(x.X); ok {
-							// for k, v := range g.F { snapshot.K[k] = v }
-							ast.Inspect(x.Body, func(m ast.Node) bool {
-								if as, ok := m.(*ast.AssignStmt); ok && len(as.Lhs) == 1 {
-									if ix, ok := as.Lhs[0].(*ast.IndexExpr); ok {
-										if sel, ok := ix.X.(*ast.SelectorExpr); ok {
-											res[f] = sel.Sel.Name
+						case *ast.AssignStmt:
+							if len(x.Lhs) != len(x.Rhs) {
+								return true
+							}
+							for i := range x.Lhs {
+								f, ok := fieldOfValue(x.Rhs[i])
+								if l, isSel := ast.Unparen(x.Lhs[i]).(*ast.SelectorExpr); isSel {
+									// c.k = v / c.k += v for a field of an intermediate struct
+									if sn := p.TypesInfo.Selections[l]; sn != nil && sn.Kind() == types.FieldVal && isInter(sn.Recv()) {
+										setInter(sn.Obj(), f, ok && x.Tok == token.ASSIGN)
+										continue
+									}
+								}
+								if !ok {
+									continue
+								}
+								switch l := ast.Unparen(x.Lhs[i]).(type) {
+								case *ast.Ident:
+									obj := p.TypesInfo.Defs[l]
+									if obj == nil {
+										obj = p.TypesInfo.Uses[l]
+									}
+									if obj != nil {
+										local[obj] = f
+									}
+								case *ast.SelectorExpr:
+									// stats.K = v
+									if tv, ok := p.TypesInfo.Types[l.X]; ok && isSnap(tv.Type) && x.Tok == token.ASSIGN {
+										publish(f, l.Sel.Name)
+									}
+								}
+							}
+						case *ast.CompositeLit:
+							if tv, ok := p.TypesInfo.Types[x]; ok && isInter(tv.Type) {
+								// counters{k: v, ...}: every field written here carries the metrics field v reads, or nothing
+								st := deref(tv.Type).Underlying().(*types.Struct)
+								for i, el := range x.Elts {
+									if kv, ok := el.(*ast.KeyValueExpr); ok {
+										if k, ok := kv.Key.(*ast.Ident); ok {
+											f, ok := fieldOfValue(kv.Value)
+											setInter(p.TypesInfo.Uses[k], f, ok)
 										}
+									} else if i < st.NumFields() {
+										f, ok := fieldOfValue(el)
+										setInter(st.Field(i), f, ok)
 									}
 								}
 								return true
-							})
+							}
+							if tv, ok := p.TypesInfo.Types[x]; ok && !isSnap(tv.Type) {
+								return true
+							}
+							for _, el := range x.Elts {
+								if kv, ok := el.(*ast.KeyValueExpr); ok {
+									if k, ok := kv.Key.(*ast.Ident); ok {
+										if f, ok := fieldOfValue(kv.Value); ok {
+											publish(f, k.Name)
+										}
+									}
+								}
+							}
+						case *ast.RangeStmt:
+							if f, ok := t.fieldOf(x.X); ok {
+								// for k, v := range g.F { snapshot.K[k] = v }
+								ast.Inspect(x.Body, func(m ast.Node) bool {
+									if as, ok := m.(*ast.AssignStmt); ok && len(as.Lhs) == 1 {
+										if ix, ok := as.Lhs[0].(*ast.IndexExpr); ok {
+											if sel, ok := ix.X.(*ast.SelectorExpr); ok {
+												res[f] = sel.Sel.Name
+											}
+										}
+									}
+									return true
+								})
+							}
 						}
+						return true
+					})
+				}
+				if !final {
+					for fv := range newBad {
+						delete(newInter, fv)
 					}
-					return true
-				})
+					inter = newInter
+				}
 			}
 		}
 	}
@@ -1248,17 +1461,71 @@ func (t *mtr) inline(s ast.Stmt, call *ast.CallExpr, fd *ast.FuncDecl, ctx inter
 	return out
 }
 
-// deferredUnlock: s is `defer g.M.Unlock()`
+func isIndexExpr(e ast.Expr) bool {
+	_, ok := ast.Unparen(e).(*ast.IndexExpr)
+	return ok
+}
+
+// assignedAgain: obj (a local variable) is assigned somewhere other than by the statement that defines it, or its
+// address is taken (so that it could be assigned through the pointer): it does not name one value
+func (t *mtr) assignedAgain(obj types.Object) bool {
+	if t.multi == nil {
+		t.multi = map[types.Object]bool{}
+		mark := func(e ast.Expr) {
+			if id, ok := ast.Unparen(e).(*ast.Ident); ok {
+				if o := t.p.TypesInfo.Uses[id]; o != nil { // Uses: not the defining occurrence
+					t.multi[o] = true
+				}
+			}
+		}
+		for _, f := range t.p.Syntax {
+			ast.Inspect(f, func(n ast.Node) bool {
+				switch x := n.(type) {
+				case *ast.AssignStmt:
+					for _, l := range x.Lhs {
+						mark(l)
+					}
+				case *ast.IncDecStmt:
+					mark(x.X)
+				case *ast.RangeStmt:
+					if x.Key != nil {
+						mark(x.Key)
+					}
+					if x.Value != nil {
+						mark(x.Value)
+					}
+				case *ast.UnaryExpr:
+					if x.Op == token.AND {
+						mark(x.X)
+					}
+				}
+				return true
+			})
+		}
+	}
+	return t.multi[obj]
+}
+
+// deferredUnlock: s is `defer g.M.Unlock()` (or the same unlock wrapped in a parameterless function)
 func (t *mtr) deferredUnlock(s ast.Stmt) (field string, ok bool) {
 	ds, isD := s.(*ast.DeferStmt)
 	if !isD {
 		return "", false
 	}
 	m, f, ok := t.lockCall(&ast.ExprStmt{X: ds.Call})
-	if !ok || m != "Unlock" {
-		return "", false
+	if ok && m == "Unlock" {
+		return f, true
 	}
-	return f, true
+	// defer func() { g.M.Unlock() }()  /  defer release()  with  func release() { g.M.Unlock() }: a deferred call, without
+	// arguments, of a function literal or same-package function without parameters whose whole body is that one unlock
+	if len(ds.Call.Args) == 0 {
+		if fd := t.funcValue(ds.Call.Fun); fd != nil && fd.Recv == nil && fd.Body != nil && fd.Type.Params.NumFields() == 0 && len(fd.Body.List) == 1 {
+			if m, f, ok := t.lockCall(fd.Body.List[0]); ok && m == "Unlock" {
+				return f, true
+			}
+		}
+	}
+	return "", false
 }
 
 // block: retOK = stmts is the whole body of an inlined callee (a trailing `return`, and `return` inside a trailing
@@ -1286,6 +1553,23 @@ func (t *mtr) block(stmts []ast.Stmt, ctx interface{}, locked string, retOK bool
 						}
 						t.alias[t.p.TypesInfo.Defs[lid]] = robj
 						continue
+					}
+				}
+			}
+		}
+		// mu := &g.F  (a local name for the address of a field, never assigned again and never itself addressed): the
+		// local stands for the field exactly like a pointer parameter of an inlined callee
+		if as, ok := s.(*ast.AssignStmt); ok && as.Tok == token.DEFINE && len(as.Lhs) == 1 && len(as.Rhs) == 1 {
+			if lid, ok := as.Lhs[0].(*ast.Ident); ok {
+				rhs := ast.Unparen(as.Rhs[0])
+				_, isAddr := rhs.(*ast.UnaryExpr)
+				_, isPtrName := rhs.(*ast.Ident) // p := q for a bound pointer q
+				if obj := t.p.TypesInfo.Defs[lid]; obj != nil && (isAddr || isPtrName) && !t.assignedAgain(obj) {
+					if f, ok := t.fieldOf(rhs); ok && !isValueForm(rhs) {
+						if u, ok := rhs.(*ast.UnaryExpr); !ok || !isIndexExpr(u.X) {
+							t.ptr[obj] = f
+							continue
+						}
 					}
 				}
 			}
